@@ -28,6 +28,24 @@ type Rec struct {
 
 const nEnvs = 3
 
+// fnEnv is a fourth environment (family A only): environment 0 plus variables whose NAMES are
+// those of template functions (docs/syntax.md itself uses `title` as its example variable).
+// A variable shadows the function of the same name, so calling f(...) where the data binds f
+// is unspecified: in this environment the functions named in fnVars are never called.
+const fnEnv = 3
+
+var fnVars = map[string]any{
+	"title": "Hello", "type": "post", "default": "fb", "lower": "",
+	"len": 3, "string": 12, "int": 0,
+	"json": []int{4, 5, 6}, "file": []string{"p", "q"},
+}
+
+var (
+	fnIntPaths    = []string{"len", "string", "int", "json[0]", "json[2]"}
+	fnStringPaths = []string{"title", "type", "default", "lower", "file[1]"}
+	fnListPaths   = []string{"json", "file"}
+)
+
 // envOf builds environment id. Every environment has the same shape and the same static
 // types per path; only the values differ (signs, zeros, empties, truthiness).
 func envOf(id int) map[string]any {
@@ -44,6 +62,13 @@ func envOf(id int) map[string]any {
 		{7, 3, 0, -4, 5, 9, 30, 4, 41, 2.5, 0.5, 0, 1.25, 8.5, "abc", "Hello", "", "42", "bob", "deep", "ann", true, false, true, true, false, []int{10, 20, 30}, []float64{1.5, 0.25}, []string{"p", "q"}},
 		{2, 11, 0, -1, 0, 16, 1, 0, 18, 0.75, 4, 0, -1.5, 0, "zed", "abc", "", "7", "Al", "mid", "x", false, true, false, false, true, []int{0, 5, 1}, []float64{0, 3}, []string{"kk", ""}},
 		{12, 12, 0, -9, 33, 1, 64, 12, 0, 10.5, 10.5, 0, 0.5, 2.75, "Mixed", "mixed", "", "100", "carol", "", "bo", true, true, false, true, true, []int{3, 3, 4}, []float64{2, 2}, []string{"a1", "a1"}},
+	}
+	if id == fnEnv {
+		m := envOf(0)
+		for k, v := range fnVars {
+			m[k] = v
+		}
+		return m
 	}
 	r := rows[id%nEnvs]
 	return map[string]any{
